@@ -27,7 +27,7 @@ def modelled : List (String × List Bool) := [
   ("lambda", [true]), ("defun", [true]), ("dolist", [true]), ("dotimes", [true]), ("do", [true]),
   ("do*", [true]), ("multiple-value-bind", [true]), ("multiple-value-list", [true]),
   ("block", [true]), ("return-from", [true]), ("return", [true]), ("tagbody", [true]), ("go", [true]),
-  ("unwind-protect", [true]), ("ignore-errors", [true])
+  ("unwind-protect", [true]), ("ignore-errors", [true]), ("recover", [true]), ("with-open-file", [true])
 ]
 
 /-- every modelled form still has the argument discipline the model assumes -/
